@@ -542,6 +542,103 @@ theorem C08_fn_allowlist_contains (style : Style) (allow : List Wallet.Allowable
         | .no => .ok false
         | .panic => .error .panic := allowlist_contains_eq style allow path s
 
+/-! ### Round 9: the key and address functions behind `can_spend` (same generated unit) -/
+
+/-- the outcome of a `Result<_, Status>` whose only error is `invalid_argument` -/
+def optRes {α : Type} : Option α → Rs.M α
+  | some a => .ok a
+  | none => .error (.err "invalid-argument")
+
+/-- **`Node::get_wallet_privkey` = `Wallet.walletKey?`**: the account key at the path, refused (`invalid_argument`) exactly
+    when the style prescribes a path length and the path has another one -/
+theorem C08_fn_get_wallet_privkey (style : Style) (allow : List Wallet.Allowable) (path : List Nat) :
+    Node.get_wallet_privkey (ext_get_key_path_len := Style.keyPathLen) (ext_len := List.length)
+        (ext_account_privkey_at := fun p => Key.account p) (toNode style allow) path
+      = optRes (walletKey? style path) := by
+  unfold Node.get_wallet_privkey walletKey? optRes
+  simp only [toNode]
+  cases hk : style.keyPathLen with
+  | none => simp [Rs.unwrap, bind, Except.bind, pure, Except.pure]
+  | some n =>
+    by_cases hl : path.length = n
+    · simp [hl, Rs.unwrap, bind, Except.bind, pure, Except.pure]
+    · simp [hl, Rs.unwrap, Rs.fail, bind, Except.bind, pure, Except.pure]
+
+theorem C08_fn_get_wallet_pubkey (style : Style) (allow : List Wallet.Allowable) (path : List Nat) :
+    Node.get_wallet_pubkey (ext_get_key_path_len := Style.keyPathLen) (ext_len := List.length)
+        (ext_account_privkey_at := fun p => Key.account p) (ext_pubkey_of := fun k => k) (toNode style allow) path
+      = optRes (walletKey? style path) := by
+  unfold Node.get_wallet_pubkey
+  rw [C08_fn_get_wallet_privkey]
+  cases walletKey? style path <;> rfl
+
+/-- the address of kind `k` at a wallet path: refused for the empty path and for a path of the wrong length -/
+def walletAddr (k : Kind) (style : Style) (path : List Nat) : Option Script :=
+  if path.length = 0 then none else (walletKey? style path).map (Script.addr k)
+
+theorem C08_fn_get_native_address (style : Style) (allow : List Wallet.Allowable) (path : List Nat) :
+    Node.get_native_address (ext_len := List.length) (ext_get_key_path_len := Style.keyPathLen)
+        (ext_account_privkey_at := fun p => Key.account p) (ext_pubkey_of := fun k => k)
+        (ext_addr_p2wpkh := fun k => Script.addr .p2wpkh k) (toNode style allow) path
+      = optRes (walletAddr .p2wpkh style path) := by
+  unfold Node.get_native_address walletAddr
+  rw [C08_fn_get_wallet_pubkey]
+  by_cases hp : path.length = 0
+  · simp [hp, optRes, Rs.fail]
+  · cases hw : walletKey? style path <;> simp [hp, hw, optRes, bind, Except.bind, pure, Except.pure]
+
+theorem C08_fn_get_wrapped_address (style : Style) (allow : List Wallet.Allowable) (path : List Nat) :
+    Node.get_wrapped_address (ext_len := List.length) (ext_get_key_path_len := Style.keyPathLen)
+        (ext_account_privkey_at := fun p => Key.account p) (ext_pubkey_of := fun k => k)
+        (ext_addr_p2shwpkh := fun k => Script.addr .p2shwpkh k) (toNode style allow) path
+      = optRes (walletAddr .p2shwpkh style path) := by
+  unfold Node.get_wrapped_address walletAddr
+  rw [C08_fn_get_wallet_pubkey]
+  by_cases hp : path.length = 0
+  · simp [hp, optRes, Rs.fail]
+  · cases hw : walletKey? style path <;> simp [hp, hw, optRes, bind, Except.bind, pure, Except.pure]
+
+theorem C08_fn_get_taproot_address (style : Style) (allow : List Wallet.Allowable) (path : List Nat) :
+    Node.get_taproot_address (ext_len := List.length) (ext_get_key_path_len := Style.keyPathLen)
+        (ext_account_privkey_at := fun p => Key.account p) (ext_pubkey_of := fun k => k)
+        (ext_addr_p2tr := fun k => Script.addr .p2tr k) (toNode style allow) path
+      = optRes (walletAddr .p2tr style path) := by
+  unfold Node.get_taproot_address walletAddr
+  rw [C08_fn_get_wallet_pubkey]
+  by_cases hp : path.length = 0
+  · simp [hp, optRes, Rs.fail]
+  · cases hw : walletKey? style path <;> simp [hp, hw, optRes, bind, Except.bind, pure, Except.pure]
+
+/-- **every address the node hands out for a wallet path is one `can_spend` recognises at that path** (the three
+    `get_*_address` functions and `can_spend` agree on key and form) -/
+theorem C08_wallet_addresses_spendable (style : Style) (path : List Nat) (k : Kind) (s : Script)
+    (hk : k = .p2wpkh ∨ k = .p2shwpkh ∨ k = .p2tr) (h : walletAddr k style path = some s) :
+    canSpend style path s = some true := by
+  unfold walletAddr at h
+  unfold canSpend
+  by_cases hp : path.length = 0
+  · simp [hp] at h
+  · simp only [hp, if_false] at h ⊢
+    cases hw : walletKey? style path with
+    | none => simp [hw] at h
+    | some key =>
+      simp only [hw, Option.map_some, Option.some.injEq] at h
+      subst h
+      rcases hk with rfl | rfl | rfl <;> simp
+
+/-- `Node::allowlist_contains_payee` is membership of `Allowable::Payee(payee)` in the allowlist -/
+theorem C08_fn_allowlist_contains_payee (style : Style) (allow : List Wallet.Allowable) (n : Nat) :
+    Node.allowlist_contains_payee (toNode style allow) n = allow.contains (.payee n) := by
+  unfold Node.allowlist_contains_payee Gen.FnNodeWallet.Node.get_state
+  simp only [toNode]
+  induction allow with
+  | nil => rfl
+  | cons a rest ih =>
+    cases a <;> simp_all [toGenAllow, List.contains_cons]
+
+example : walletAddr .p2wpkh .native [3] = some (.addr .p2wpkh (.account [3])) ∧ walletAddr .p2wpkh .native [] = none
+    ∧ walletAddr .p2tr .native [1, 2] = none := by decide
+
 end NodeWallet
 
 /-! ## Round 9: `vls-protocol-signer/src/approver.rs` (`Gen/FnApproverC08.lean`) and the `OnchainValidator` wrapper
